@@ -236,6 +236,10 @@ struct ApiScope {
         if (on("C15")) {
             bool known15;
             W->c15_looping_at_entry = ctx_is_looping_probe(&known15);   // LOOPING proper (during the final flush the statement is silent)
+            // the start-up pass of a loop run (evaluation / start callbacks before the first poll) is part of the loop as well, whatever the library's own flag says
+            // (recognised by its callbacks: the outermost one is an evaluation or start callback, and no event handler has run yet in this loop run)
+            if (W->ctx_looping && W->loop_start_pending_eval && !W->loops.empty() && !W->loops.back().ended && W->loops.back().evt_cbs == 0 && (frame_on_stack_any("loop") || frame_on_stack_any("dispatch")))
+                for (auto &fr : W->frames) if (fr.is_cb) { if (fr.cb == CB_EVAL || fr.cb == CB_START) W->c15_looping_at_entry = true; break; }
             W->c15_nested_cb_returned = false;
             // did a nested callback already run and return inside the innermost executing callback?
             for (int i = (int)W->frames.size() - 1; i >= 0; i--) if (W->frames[i].is_cb) { W->c15_nested_cb_returned = W->frames[i].nested > 0; break; }
@@ -381,6 +385,7 @@ static void handle_evt(m_mod_t *self, const m_queue_t *evts, int hidx) {
     if (slot < 0) return;
     Slot &s = W->slots[slot];
     int n = s.n_cb[CB_EVT]++;
+    if (!W->loops.empty() && !W->loops.back().ended) W->loops.back().evt_cbs++;
     W->deliveries.emplace_back();
     Delivery &d = W->deliveries.back();
     d.gseq = R->gseq;
